@@ -6,6 +6,7 @@ import (
 	"encoding/json"
 	"fmt"
 	"os"
+	"os/exec"
 	"path/filepath"
 	"sort"
 	"strconv"
@@ -61,7 +62,14 @@ type ReplayFile struct {
 	MinRuns  int      `json:"minimiser_runs"`
 	Trace    []string `json:"trace"`
 	Sample   []string `json:"case,omitempty"`
+	// Fresh: the violation depends on state a process has only once (one-time initialisation of
+	// package-level state): found in the first execution of a worker process, it reproduces in
+	// the first execution of a fresh process and nowhere else. Replayed without warm-up.
+	Fresh bool `json:"fresh_process,omitempty"`
 }
+
+// FreshReplay is set while a replay file marked fresh_process is executed.
+var FreshReplay bool
 
 // WorkerOut is what a worker process hands back to the driver.
 type WorkerOut struct {
@@ -330,6 +338,28 @@ func WorkerMain(t *testing.T, h Harness) {
 		}
 		r2 := h.RunOne(t, ReplayTape(r.Tape), prop, tier, false)
 		v2 := withSignature(&h, prop, &r2, v.Signature)
+		if v2 == nil && out.Cases == 1 && len(out.Errors) == 0 {
+			// the first execution of this process: what it showed may need the state of a
+			// process that has just started. Confirm in a fresh process.
+			rf := ReplayFile{Property: prop, Harness: h.Name, Race: RaceBuild, Tier: tier, Seed: seed, RunSeed: runSeed, RunIndex: i, Tape: r.Tape, OrigTape: len(r.Tape), Fresh: true}
+			rf.Expect.Class, rf.Expect.Signature, rf.Message = v.Class, v.Signature, v.Msg
+			rf.Sample = r.Sample
+			_ = os.MkdirAll(replayDir, 0o755)
+			path := filepath.Join(replayDir, fmt.Sprintf("%s-%d-%d.json", prop, seed, i))
+			b, _ := json.MarshalIndent(rf, "", " ")
+			if err := os.WriteFile(path, b, 0o644); err != nil {
+				out.Errors = append(out.Errors, "write replay: "+err.Error())
+				break
+			}
+			if ok, why := replayInFreshProcess(path); ok {
+				out.Violations = append(out.Violations, WorkerViolation{prop, v.Class, v.Signature, v.Msg, path, i})
+				break
+			} else {
+				os.Remove(path)
+				out.Errors = append(out.Errors, fmt.Sprintf("NONDETERMINISM run %d (seed %d): violation %q of the first execution of the process reproduced neither in this process nor in a fresh one (%s): %s", i, runSeed, v.Signature, why, v.Msg))
+				break
+			}
+		}
 		if v2 == nil {
 			got := "<none>"
 			if o := relevant(&h, prop, &r2); o != nil {
@@ -368,6 +398,40 @@ func WorkerMain(t *testing.T, h Harness) {
 		out.Violations = append(out.Violations, WorkerViolation{prop, vm.Class, vm.Signature, vm.Msg, path, i})
 		break
 	}
+}
+
+// replayInFreshProcess executes a replay file in a new process of this test binary.
+func replayInFreshProcess(path string) (bool, string) {
+	tmp := path + ".out"
+	defer os.Remove(tmp)
+	cmd := exec.Command(os.Args[0], os.Args[1:]...)
+	for _, e := range os.Environ() {
+		if strings.HasPrefix(e, "VERIF_REPLAY=") || strings.HasPrefix(e, "VERIF_OUT=") || strings.HasPrefix(e, "VERIF_MAXRUNS=") {
+			continue
+		}
+		cmd.Env = append(cmd.Env, e)
+	}
+	cmd.Env = append(cmd.Env, "VERIF_REPLAY="+path, "VERIF_OUT="+tmp)
+	outb, err := cmd.CombinedOutput()
+	b, rerr := os.ReadFile(tmp)
+	if rerr != nil {
+		return false, fmt.Sprintf("fresh process gave no result: %v %v %s", err, rerr, lastBytes(outb, 300))
+	}
+	var wo WorkerOut
+	if err := json.Unmarshal(b, &wo); err != nil || wo.Replay == nil {
+		return false, fmt.Sprintf("fresh process gave no replay outcome: %v %v", err, wo.Errors)
+	}
+	if wo.Replay.Reproduced {
+		return true, ""
+	}
+	return false, "fresh process got " + strconv.Quote(wo.Replay.Got)
+}
+
+func lastBytes(b []byte, n int) string {
+	if len(b) > n {
+		b = b[len(b)-n:]
+	}
+	return string(b)
 }
 
 func matchKnown(known []KnownFinding, prop, sig string) *KnownFinding {
@@ -411,7 +475,9 @@ func replayOne(t *testing.T, h *Harness, path string, out *WorkerOut) {
 		out.Errors = append(out.Errors, err.Error())
 		return
 	}
+	FreshReplay = rf.Fresh
 	r := h.RunOne(t, ReplayTape(rf.Tape), rf.Property, rf.Tier, true)
+	FreshReplay = false
 	if r.HarnessErr != "" {
 		out.Errors = append(out.Errors, r.HarnessErr)
 		return
